@@ -387,7 +387,7 @@ func check(c Case) engine.Outcome {
 }
 
 func props() []engine.AnyProp {
-	return []engine.AnyProp{engine.Prop[Case]{ID: "C12", Subject: "Sync", Gen: genCase, Check: check}}
+	return []engine.AnyProp{engine.Prop[Case]{ID: "C12", Subject: "Sync", Gen: genCase, Check: check}, cliProp()}
 }
 
 func TestC12(t *testing.T) { engine.RunAll(t, props(), false) }
